@@ -51,8 +51,9 @@ struct History {
 
 const QUERY_NAMES: [&str; 4] = ["q", "x", "limit", "y"];
 const TAGS: [&str; 3] = ["t1", "t2", "other"];
-const QKINDS: [PKind; 5] = [PKind::Str, PKind::Int, PKind::Bool, PKind::StrArray, PKind::Object];
-const NONSCALAR: [PKind; 3] = [PKind::Object, PKind::ObjArray, PKind::StrArray];
+const QKINDS: [PKind; 10] = [PKind::Str, PKind::Int, PKind::Bool, PKind::StrArray, PKind::Object, PKind::DocEnum, PKind::OneOfMixed, PKind::RefScalar, PKind::RefObject, PKind::NullableRef];
+const NONSCALAR: [PKind; 5] = [PKind::Object, PKind::ObjArray, PKind::StrArray, PKind::OneOfMixed, PKind::RefObject];
+const SCALARS: [PKind; 6] = [PKind::Str, PKind::Int, PKind::Bool, PKind::DocEnum, PKind::RefScalar, PKind::NullableRef];
 
 fn seg_of(code: u8) -> Seg {
     match code % 6 {
@@ -90,7 +91,7 @@ fn reg_strategy() -> impl Strategy<Value = RegSpec> {
     ];
     let query = prop_oneof![
         6 => Just(None),
-        2 => proptest::collection::vec((0u8..4, 0u8..5), 0..3).prop_map(Some),
+        2 => proptest::collection::vec((0u8..4, 0u8..10), 0..3).prop_map(Some),
     ];
     (
         0u8..3,
@@ -157,7 +158,7 @@ fn interpret(r: &RegSpec, n: usize) -> Step {
         }
     }
     let mut path_spec: ParamSpec =
-        names.iter().map(|(n, w)| (n.clone(), if *w { PKind::StrArray } else { PKind::Str })).collect();
+        names.iter().enumerate().map(|(i, (n, w))| (n.clone(), if *w { PKind::StrArray } else { SCALARS[(r.range as usize + i) % 6] })).collect();
     match &r.path_params {
         PathParams::Match => {}
         PathParams::Missing(i) => {
@@ -172,7 +173,7 @@ fn interpret(r: &RegSpec, n: usize) -> Step {
                 let ix = pick_idx(*i, path_spec.len());
                 let is_wild = names[ix].1;
                 // for the wildcard only clearly wrong shapes (objects)
-                let kind = if is_wild { [PKind::Object, PKind::ObjArray][(*k as usize) % 2] } else { NONSCALAR[(*k as usize) % 3] };
+                let kind = if is_wild { [PKind::Object, PKind::ObjArray][(*k as usize) % 2] } else { NONSCALAR[(*k as usize) % 5] };
                 path_spec[ix].1 = kind;
             }
         }
@@ -182,7 +183,7 @@ fn interpret(r: &RegSpec, n: usize) -> Step {
         for (n, k) in q {
             let name = QUERY_NAMES[(*n as usize) % 4].to_string();
             if !out.iter().any(|(m, _)| m == &name) {
-                out.push((name, QKINDS[(*k as usize) % 5]));
+                out.push((name, QKINDS[(*k as usize) % 10]));
             }
         }
         out
